@@ -145,13 +145,13 @@ RULES = {
     "C18": "every call sequence of length <= L (3 quick, 4 thorough) over observations(rows in {0,1,2,3,4} x cols in {0,1,2,3}), weights(len in {0,1,2,3,4}, all-ones | varied), epsilon(+-1e-2, +-1e-8, 0[, 1e-300, -0]) for the constructors new/new_parallel/mrhs/mrhs_parallel x model output length {0,1,3} x {f64,f32}; the 3-sample model has an exactly diagonal basis diag(1, d2) with d2 = 1e-5 or 0.4375*eps so that the threshold in force is observable in the coefficients; every sequence is a distinct case",
     "C17": "environment = which of the 6 closures (3 basis functions, 3 derivatives) of a builder-made model returns a vector of wrong length (0, N-1, N+1, 2N), singly, in all pairs with cancelling totals, and two triples; within each environment ALL op sequences up to depth d (3 quick, 4 thorough) over 12 ops: eval, eval_partial_deriv(k) for k in {0,1,P,P+1,usize::MAX}, set_params(good a1|a2), set_params of length 0, P-1, P+1, 2P; every step is compared with the reference (last accepted parameters, exact expected matrices, expected error kind and payload); every sequence counts as distinct and non-trivial",
     "C16": "case = one builder-made model with injectively tagged closures: model parameter list = every permutation of {a,b,c} and {a,b,c,d}; a function over every ordered subset (arity 1..4) with every order of supplying its derivatives, with an invariant function before/after/absent; pairs of functions over all pairs of ordered subsets; arity 5..10 on a 10-parameter model with every rotation, every transposition of the identity and of a scattered assignment, three derivative orders, three rotations of the model list; f32 and f64; oracle = exact (bitwise) comparison of eval, every eval_partial_deriv, params round-trip and parameters(); every model is distinct and non-trivial",
-    "C01": "scenario = (family, N, provenance, f32|f64, seq|par, single|mrhs + observation columns, weight kind, threshold kind, alphabet of 4-9 parameter vectors); within a scenario ALL histories of set_params over the alphabet up to depth d are executed on the live problem (d=2 quick, 3 thorough; C10: 3/4); state = everything the LeastSquaresProblem interface exposes (bit patterns of params, residuals, coefficients, Jacobian); non-trivial = distinct reached states whose rank class is decidable (Full or Truncated) and on which the heavy oracle ran",
-    "C02": "scenario = (family, N, provenance, f32|f64, seq|par, single|mrhs + observation columns, weight kind, threshold kind, alphabet of 4-9 parameter vectors); within a scenario ALL histories of set_params over the alphabet up to depth d are executed on the live problem (d=2 quick, 3 thorough; C10: 3/4); state = everything the LeastSquaresProblem interface exposes (bit patterns of params, residuals, coefficients, Jacobian); non-trivial = distinct reached states whose rank class is decidable (Full or Truncated) and on which the heavy oracle ran",
-    "C03": "scenario = (family, N, provenance, f32|f64, seq|par, single|mrhs + observation columns, weight kind, threshold kind, alphabet of 4-9 parameter vectors); within a scenario ALL histories of set_params over the alphabet up to depth d are executed on the live problem (d=2 quick, 3 thorough; C10: 3/4); state = everything the LeastSquaresProblem interface exposes (bit patterns of params, residuals, coefficients, Jacobian); non-trivial = distinct reached states whose rank class is decidable (Full or Truncated) and on which the heavy oracle ran; plus the fault sweep of the C09 engine for the all-or-nothing clause",
-    "C06": "scenario = (family, N, provenance, f32|f64, seq|par, single|mrhs + observation columns, weight kind, threshold kind, alphabet of 4-9 parameter vectors); within a scenario ALL histories of set_params over the alphabet up to depth d are executed on the live problem (d=2 quick, 3 thorough; C10: 3/4); state = everything the LeastSquaresProblem interface exposes (bit patterns of params, residuals, coefficients, Jacobian); non-trivial = distinct reached states whose rank class is decidable (Full or Truncated) and on which the heavy oracle ran; every scenario runs the weighted subject and its row-scaled / unweighted / row-deleted / |w| twin in lock-step",
-    "C07": "scenario = (family, N, provenance, f32|f64, seq|par, single|mrhs + observation columns, weight kind, threshold kind, alphabet of 4-9 parameter vectors); within a scenario ALL histories of set_params over the alphabet up to depth d are executed on the live problem (d=2 quick, 3 thorough; C10: 3/4); state = everything the LeastSquaresProblem interface exposes (bit patterns of params, residuals, coefficients, Jacobian); non-trivial = distinct reached states whose rank class is decidable (Full or Truncated) and on which the heavy oracle ran; every scenario runs the mrhs subject and one single-rhs problem per column in lock-step; scenarios = all ordered selections of 1..3 columns from a 6-column pool (+ two with 4 and 5 columns)",
-    "C10": "scenario = (family, N, provenance, f32|f64, seq|par, single|mrhs + observation columns, weight kind, threshold kind, alphabet of 4-9 parameter vectors); within a scenario ALL histories of set_params over the alphabet up to depth d are executed on the live problem (d=2 quick, 3 thorough; C10: 3/4); state = everything the LeastSquaresProblem interface exposes (bit patterns of params, residuals, coefficients, Jacobian); non-trivial = distinct reached states whose rank class is decidable (Full or Truncated) and on which the heavy oracle ran; additionally scenarios whose alphabet contains a parameter vector the model rejects (at set_params or at evaluation)",
-    "C11": "scenario = (family, N, provenance, f32|f64, seq|par, single|mrhs + observation columns, weight kind, threshold kind, alphabet of 4-9 parameter vectors); within a scenario ALL histories of set_params over the alphabet up to depth d are executed on the live problem (d=2 quick, 3 thorough; C10: 3/4); state = everything the LeastSquaresProblem interface exposes (bit patterns of params, residuals, coefficients, Jacobian); non-trivial = distinct reached states whose rank class is decidable (Full or Truncated) and on which the heavy oracle ran; every scenario runs the parallel subject and its sequential twin in lock-step (real rayon)",
+    "C01": "scenario = (family, N, provenance, f32|f64, seq|par, single|mrhs + observation columns, weight kind, threshold kind, alphabet of 4-9 parameter vectors); within a scenario ALL histories of set_params over the alphabet up to depth d are executed on the live problem (d=2 quick, 3 thorough; C10: 3/4), plus three long deterministic walks per scenario (alphabet cyclically x3, every entry repeated x4, ping-pong; 9n steps) beyond the depth bound; state = everything the LeastSquaresProblem interface exposes (bit patterns of params, residuals, coefficients, Jacobian); non-trivial = distinct reached states whose rank class is decidable (Full or Truncated) and on which the heavy oracle ran",
+    "C02": "scenario = (family, N, provenance, f32|f64, seq|par, single|mrhs + observation columns, weight kind, threshold kind, alphabet of 4-9 parameter vectors); within a scenario ALL histories of set_params over the alphabet up to depth d are executed on the live problem (d=2 quick, 3 thorough; C10: 3/4), plus three long deterministic walks per scenario (alphabet cyclically x3, every entry repeated x4, ping-pong; 9n steps) beyond the depth bound; state = everything the LeastSquaresProblem interface exposes (bit patterns of params, residuals, coefficients, Jacobian); non-trivial = distinct reached states whose rank class is decidable (Full or Truncated) and on which the heavy oracle ran",
+    "C03": "scenario = (family, N, provenance, f32|f64, seq|par, single|mrhs + observation columns, weight kind, threshold kind, alphabet of 4-9 parameter vectors); within a scenario ALL histories of set_params over the alphabet up to depth d are executed on the live problem (d=2 quick, 3 thorough; C10: 3/4), plus three long deterministic walks per scenario (alphabet cyclically x3, every entry repeated x4, ping-pong; 9n steps) beyond the depth bound; state = everything the LeastSquaresProblem interface exposes (bit patterns of params, residuals, coefficients, Jacobian); non-trivial = distinct reached states whose rank class is decidable (Full or Truncated) and on which the heavy oracle ran; plus the fault sweep of the C09 engine for the all-or-nothing clause",
+    "C06": "scenario = (family, N, provenance, f32|f64, seq|par, single|mrhs + observation columns, weight kind, threshold kind, alphabet of 4-9 parameter vectors); within a scenario ALL histories of set_params over the alphabet up to depth d are executed on the live problem (d=2 quick, 3 thorough; C10: 3/4), plus three long deterministic walks per scenario (alphabet cyclically x3, every entry repeated x4, ping-pong; 9n steps) beyond the depth bound; state = everything the LeastSquaresProblem interface exposes (bit patterns of params, residuals, coefficients, Jacobian); non-trivial = distinct reached states whose rank class is decidable (Full or Truncated) and on which the heavy oracle ran; every scenario runs the weighted subject and its row-scaled / unweighted / row-deleted / |w| twin in lock-step",
+    "C07": "scenario = (family, N, provenance, f32|f64, seq|par, single|mrhs + observation columns, weight kind, threshold kind, alphabet of 4-9 parameter vectors); within a scenario ALL histories of set_params over the alphabet up to depth d are executed on the live problem (d=2 quick, 3 thorough; C10: 3/4), plus three long deterministic walks per scenario (alphabet cyclically x3, every entry repeated x4, ping-pong; 9n steps) beyond the depth bound; state = everything the LeastSquaresProblem interface exposes (bit patterns of params, residuals, coefficients, Jacobian); non-trivial = distinct reached states whose rank class is decidable (Full or Truncated) and on which the heavy oracle ran; every scenario runs the mrhs subject and one single-rhs problem per column in lock-step; scenarios = all ordered selections of 1..3 columns from a 6-column pool (+ two with 4 and 5 columns)",
+    "C10": "scenario = (family, N, provenance, f32|f64, seq|par, single|mrhs + observation columns, weight kind, threshold kind, alphabet of 4-9 parameter vectors); within a scenario ALL histories of set_params over the alphabet up to depth d are executed on the live problem (d=2 quick, 3 thorough; C10: 3/4), plus three long deterministic walks per scenario (alphabet cyclically x3, every entry repeated x4, ping-pong; 9n steps) beyond the depth bound; state = everything the LeastSquaresProblem interface exposes (bit patterns of params, residuals, coefficients, Jacobian); non-trivial = distinct reached states whose rank class is decidable (Full or Truncated) and on which the heavy oracle ran; additionally scenarios whose alphabet contains a parameter vector the model rejects (at set_params or at evaluation)",
+    "C11": "scenario = (family, N, provenance, f32|f64, seq|par, single|mrhs + observation columns, weight kind, threshold kind, alphabet of 4-9 parameter vectors); within a scenario ALL histories of set_params over the alphabet up to depth d are executed on the live problem (d=2 quick, 3 thorough; C10: 3/4), plus three long deterministic walks per scenario (alphabet cyclically x3, every entry repeated x4, ping-pong; 9n steps) beyond the depth bound; state = everything the LeastSquaresProblem interface exposes (bit patterns of params, residuals, coefficients, Jacobian); non-trivial = distinct reached states whose rank class is decidable (Full or Truncated) and on which the heavy oracle ran; every scenario runs the parallel subject and its sequential twin in lock-step (real rayon)",
     "C08": "case = a finite baseline problem (family x N in {1,2,3,4(,8)} x S in {1,2} x provenance x flavour x weights x f32/f64) with <= k positions (each element of x, y, w, the initial alpha, or a later set_params vector) replaced by one of 14 IEEE special values; every case runs build, queries, set_params, fit, fit_with_statistics and all statistics accessors; non-trivial = the basis matrix at the starting parameters is non-finite (the path the property is about)",
     "C09": "case = (scenario, phase in {caller history <= d over 3 parameter vectors, fit, fit_with_statistics}, failing model-call index k < n, transient|persistent, model keeps|stores rejected parameters); non-trivial = the injected failure actually fired",
     "C12": "case = (family/shape with N from M to M+P+3, width, provenance, weights, one of three solver set-ups that make success independent of the data, build profile) plus a failure at every model call of the statistics phase; non-trivial = statistics code entered (successful fit) and either the identities were checked or the under-determined/faulted case was rejected",
